@@ -266,6 +266,9 @@ func ProcessUsageStatsHandler(ctx *fasthttp.RequestCtx, orgId int64) {
 	utils.WriteJsonResponse(ctx, httpResp)
 }
 
+// the longest time range of a usage stats request
+const maxUsageStatsRangeSecs = 10 * 366 * 24 * 3600
+
 func parseIngestionStatsRequest(jsonSource map[string]interface{}) (usageStats.UsageStatsGranularity, int64, int64) {
 	startEpoch, hasStart := jsonSource["startEpoch"]
 	endEpoch, hasEnd := jsonSource["endEpoch"]
@@ -286,8 +289,9 @@ func parseIngestionStatsRequest(jsonSource map[string]interface{}) (usageStats.U
 	startTs := parseTimestamp(startEpoch)
 	endTs := parseTimestamp(endEpoch)
 
-	// Validate timestamps
-	if startTs == -1 || endTs == -1 || endTs <= startTs {
+	// Validate timestamps; one bucket is made per minute step / hour / day / month of the range
+	// (the difference of two int64 of which the second is the larger one is negative when it wrapped)
+	if startTs == -1 || endTs == -1 || endTs <= startTs || endTs-startTs < 0 || endTs-startTs > maxUsageStatsRangeSecs {
 		if hasGranularity {
 			return parseGranularity(granularity), defaultStartTs, defaultEndTs
 		}
